@@ -26,6 +26,11 @@ RMax(a, b) == IF RLe(a, b) THEN b ELSE a
 RSign(a) == IF a[1] > 0 THEN 1 ELSE IF a[1] < 0 THEN -1 ELSE 0
 \* a logged dyadic value [n, k] stands for n / 2^k
 RDy(d) == RNorm(d[1], 2 ^ d[2])
+\* a logged value: exact dyadic [n,k] or approximation [n,16,1]; Near: equal, resp. within 2^-13
+RVal(d) == RNorm(d[1], 2 ^ d[2])
+Near(d, r) == IF d[2] < 0 THEN FALSE
+              ELSE IF Len(d) = 2 THEN REq(RDy(d), r)
+              ELSE LET diff == d[1] * r[2] - r[1] * 65536 IN (IF diff < 0 THEN -diff ELSE diff) <= 8 * r[2]
 RECURSIVE RSum(_, _)
 RSum(s, i) == IF i > Len(s) THEN <<0, 1>> ELSE RAdd(s[i], RSum(s, i + 1))
 \* order-preserving code of a finite double: <<sign, hi, mid, lo>> = sign and the bit pattern of |x| split 31/17/16
